@@ -327,6 +327,12 @@ func DB3ToMCAP(w io.Writer,
 			return fmt.Errorf("failed to write channel info: %w", err)
 		}
 	}
+	// only message-typed topics are converted; rows stored on other topics (services, actions) have
+	// no channel and are skipped rather than failing the whole conversion.
+	converted := make(map[uint16]bool, len(topics))
+	for _, t := range topics {
+		converted[t.id] = true
+	}
 	seq := make(map[uint16]uint32)
 	err = transformMessages(db, func(rows *sql.Rows) error {
 		var topicID uint16
@@ -339,6 +345,9 @@ func DB3ToMCAP(w io.Writer,
 		)
 		if err != nil {
 			return err
+		}
+		if !converted[topicID] {
+			return nil
 		}
 		err = writer.WriteMessage(&mcap.Message{
 			ChannelID:   topicID,
